@@ -1,7 +1,7 @@
 (* C13: observations on generated files used by the oracle: the list of module items of a file
    (printed canonically), the relation between two versions of a file, and the declaration labels
    in file order. The parser is the shared specification parser (Spec/TsModule.v). *)
-From Coq Require Import List Arith Bool String Ascii.
+From Coq Require Import List Arith Bool String Ascii Permutation.
 Require Import TT.Model.Str TT.Spec.TsLex TT.Spec.TsModule TT.Spec.TsObs.
 Import ListNotations.
 Local Open Scope list_scope.
@@ -19,7 +19,7 @@ Definition file_items (s : str) : option (list str) :=
 
 Definition count (x : str) (l : list str) : nat := List.length (filter (str_eqb x) l).
 Definition ms_eqb (a b : list str) : bool :=
-  Nat.eqb (List.length a) (List.length b) && forallb (fun x => Nat.eqb (count x a) (count x b)) a.
+  forallb (fun x => Nat.eqb (count x a) (count x b)) a && forallb (fun x => Nat.eqb (count x a) (count x b)) b.
 Fixpoint list_eqb (a b : list str) : bool :=
   match a, b with
   | [], [] => true
@@ -32,6 +32,16 @@ Definition rel (a b : str) : verdict :=
   match file_items a, file_items b with
   | Some x, Some y => if list_eqb x y then SameItems else if ms_eqb x y then SameMultiset else Different
   | _, _ => Unparsed end.
+
+(* what the four verdicts mean (Proofs/C13Oracle.v: rel a b = v <-> rel_spec a b v) *)
+Definition rel_spec (a b : str) (v : verdict) : Prop :=
+  match v with
+  | SameItems => exists x, file_items a = Some x /\ file_items b = Some x
+  | SameMultiset => exists x y, file_items a = Some x /\ file_items b = Some y /\ x <> y /\ Permutation x y
+  | Different => exists x y, file_items a = Some x /\ file_items b = Some y /\ ~ Permutation x y
+  | Unparsed => file_items a = None \/ file_items b = None
+  end.
+
 
 (* declaration labels in file order: (kind name call) *)
 (* the first string literal after the first occurrence of the identifier fname (the name passed to
